@@ -88,11 +88,18 @@ class HierDictDocument(DictDocument):
 
             logger.debug("Request: %r", doc)
 
-            class_name = self.get_class_name(body_class)
+            # the key of the message is its element name: that's the type
+            # name for wrapper messages and the method name for bare ones.
+            class_name = body_class.get_element_name()
             if self.ignore_wrappers:
                 doc = doc.get(class_name, None)
 
-            if doc is None:
+            if not issubclass(body_class, ComplexModelBase):
+                # a bare method whose single argument is not an object
+                ctx.in_object = self._from_dict_value(ctx, class_name,
+                                               body_class, doc, self.validator)
+
+            elif doc is None:
                 # {"method": null}: the message is there, its members are not
                 ctx.in_object = [None] * len(body_class._type_info)
 
